@@ -499,3 +499,35 @@ func VerifC02Packets(v *verifrt.T) {
 	}
 	v.Observe("replies", uint64(len(asock.writes)))
 }
+
+// VerifC02BrokenSubscriber: "a client receives a message if and only if ... it held an
+// acknowledged subscription" - whatever happens to the *other* subscribers. Three connections
+// hold the channel; the socket of one of them (any) fails every write - a half-dead connection
+// that is still indexed. A publish still reaches the two healthy ones, once each.
+func VerifC02BrokenSubscriber(v *verifrt.T) {
+	e := c08new(v)
+	k := security.Key(make([]byte, 24))
+	k.SetMaster(1)
+	k.SetContract(7)
+	k.SetSignature(9)
+	k.SetPermissions(security.AllowReadWrite)
+	k.SetTarget("a/")
+	name := e.ciph.add(k)
+	var conns [3]*Conn
+	var socks [3]*hsock
+	for i := range conns {
+		conns[i], socks[i] = hconn(e.svc, i)
+		v.Assert(e.ps.OnSubscribe(conns[i], []byte(name+"/a/")) == nil, "C02.broken.env")
+	}
+	pub, _ := hconn(e.svc, 3)
+	broken := v.Choice(3, "broken")
+	socks[broken].fail = true
+	err := e.ps.OnPublish(pub, &mqtt.Publish{Topic: []byte(name + "/a/"), Payload: []byte{0x45}})
+	v.Reach("published-past-a-broken-subscriber")
+	v.Assert(err == nil, "C02.broken.publish-accepted")
+	for i := range conns {
+		if i != broken {
+			v.Assert(len(socks[i].writes) == 1, "C02.broken.healthy-subscribers-still-receive-once")
+		}
+	}
+}
